@@ -5,15 +5,28 @@ PROBES = {   # known-finding id -> (probe family, how a reproduction looks)
     "F-C07-stack-binops": "probe-stack-binops", "F-C07-stack-parens": "probe-stack-parens",
     "F-C07-nested-calls-time": "probe-nested-calls", "F-C07-return-nesting-exponential": "probe-return-nesting",
     "F-C07-foreign-operator-panic": "probe-foreign-operator", "F-C07-silent-recovery": "probe-silent-recovery",
+    "F-C07-type-lexer-error-panic": "probe-type-lexer-error",
 }
-FOREIGN_PANIC = "#" + "called `Option::unwrap()` on a `None` value".encode().hex()
-OVERFLOW_PANIC = "#" + "attempt to subtract with overflow".encode().hex()
+def panic_msg(w):
+    """(message, place) of a BADCASE record; the place is crate-relative file:line, written by the harness's panic hook"""
+    m = bytes.fromhex(w[7][1:]).decode("utf-8", "replace") if len(w) > 7 else ""
+    return tuple(m.rsplit(" @", 1)) if " @" in m else (m, "")
+def invalid_family(w): return w[2].endswith(".trunc") or w[2].endswith(".splice") or w[2].startswith("probe")
+def foreign_panic_class(w):
+    m, at = panic_msg(w)
+    return w[1] == "panic" and m == "called `Option::unwrap()` on a `None` value" and at.startswith("full_moon-")
+def type_lexer_error_class(w):
+    """the listed full_moon finding: in Luau a character the tokenizer rejects right behind a type (`x :: T\\`, `x :: T @`, an
+    unfinished string there) makes parse_type_suffix leave its loop with neither a union nor an intersection: unreachable!()"""
+    m, at = panic_msg(w)
+    return w[1] == "panic" and m == "internal error: entered unreachable code" and at.startswith("full_moon-") and "/parsers.rs:" in at and w[3] == "Luau" and invalid_family(w)
 def silent_recovery_class(w):
     """the listed full_moon finding: a truncated / spliced Luau text whose last table field value is an unfinished if-expression is
     returned as a tree (with a phantom closing brace at position 0) instead of an error; with overflow checks the brace-distance
     arithmetic in table.rs then panics, without them the field is silently dropped"""
     src = bytes.fromhex(w[8][1:]).decode("utf-8", "replace") if len(w) > 8 else ""
-    return w[1] == "panic" and w[7] == OVERFLOW_PANIC and w[3] == "Luau" and (w[2].endswith(".trunc") or w[2].endswith(".splice") or w[2].startswith("probe")) and "if " in src and "{" in src
+    m, at = panic_msg(w)
+    return w[1] == "panic" and m == "attempt to subtract with overflow" and at.startswith("src/formatters/table.rs:") and w[3] == "Luau" and invalid_family(w) and "if " in src and "{" in src
 
 def run(res):
     proof = proof_stage(res, "C07", extra_obligations=1)
@@ -23,7 +36,7 @@ def run(res):
     # nesting families in a child of their own: an abort there must not take the check down
     deep = subprocess.run([SVH, "c07", "--family", "deep"], stdout=subprocess.PIPE, stderr=subprocess.PIPE, text=True, timeout=900, env=ENV)
     lines += deep.stdout.splitlines()
-    stats, bads, known_panics, known_recovery, known_nested = {}, [], 0, 0, 0
+    stats, bads, known_panics, known_recovery, known_nested, known_typelex = {}, [], 0, 0, 0, 0
     last_start = ""
     for l in lines:
         w = l.split()
@@ -33,8 +46,9 @@ def run(res):
         elif w[0] == "START": last_start = " ".join(w[1:])
         elif w[0] == "BADCASE":
             # the listed dependency panic: full_moon's expression parser on an operator token of another dialect (input invalid)
-            if w[1] == "panic" and w[7] == FOREIGN_PANIC: known_panics += 1
+            if foreign_panic_class(w): known_panics += 1
             elif silent_recovery_class(w): known_recovery += 1
+            elif type_lexer_error_class(w): known_typelex += 1
             elif w[1] == "slow-nested-narrow": known_nested += 1
             else: bads.append(w)
     # the second shape of the silent recovery (listed): `x :: T < y` opens type arguments that never close; full_moon returns a
@@ -60,6 +74,9 @@ def run(res):
             rep, how = True, "still running after 60 s"
         if e.get("id") == "F-C07-foreign-operator-panic": rep = rep or known_panics > 0
         if e.get("id") == "F-C07-silent-recovery": rep = rep or known_recovery > 0
+        if e.get("id") == "F-C07-type-lexer-error-panic":
+            rep = rep or known_typelex > 0
+            if known_typelex: how += "; %d generated invalid inputs hit it" % known_typelex
         if e.get("id") == "F-C07-nested-calls-time" and known_nested: how += "; %d generated programs nested 8 deep or more at a column width of 20 or less exceeded the time budget" % known_nested
         reproduced[e["id"]] = how
         if rep: res.known.append("%s [%s%s]" % (e["what"], how, "; %d generated invalid inputs hit it" % known_panics if e["id"] == "F-C07-foreign-operator-panic" and known_panics else ""))
@@ -72,7 +89,7 @@ def run(res):
              "nesting families up to depth 100 (parentheses, tables, blocks, unary chains, method chains, index chains), binary chains of 400 terms, nested calls to depth 30, function-in-return nesting to 6, blocks of 10^4 statements; "
              "every call under catch_unwind with a budget of 1 s + 50 us per byte; built with overflow checks. non-trivial = invalid inputs" % n,
         samples=[" ".join(b[1:6]) for b in bads[:3]] or ["calls=%s valid=%s invalid=%s slowest=%s ms" % (stats.get("calls"), stats.get("valid_inputs"), stats.get("invalid_inputs"), stats.get("max_ms"))],
-        input_distribution=dict(stats, listed_dependency_panics=known_panics, listed_silent_recoveries=known_recovery, listed_slow_nested_narrow=known_nested, probes=reproduced),
+        input_distribution=dict(stats, listed_dependency_panics=known_panics, listed_silent_recoveries=known_recovery, listed_slow_nested_narrow=known_nested, listed_type_lexer_error_panics=known_typelex, probes=reproduced),
         correspondence="outcome of stylua_lib::format_code under catch_unwind: Ok for inputs full_moon parses, ParseError otherwise, no panic, no other error, within the budget")
     res.assumptions = ["stack overflow aborts the process and cannot be caught: the nesting families run in a child process; beyond the listed bounds the known findings apply",
                        "wall time is measured on this machine; the budget is generous (1 s + 50 us per byte) to stay clear of noise"]
